@@ -192,6 +192,8 @@ VK_TECH = "Verus contracts on the mechanically extracted real bodies (generic, u
 for _p in ("C07", "C13", "C14", "C15", "C18"):
     CLAIMS[_p]["technique"] = VK_TECH
     CLAIMS[_p]["engine"] = "verus"
+CLAIMS["C12"]["technique"] = "bounded stand-in: Kani/CBMC harnesses on the compiled crates (thresholds on a constant stream, all random words) + a Verus contract on the real UniformXo loop (one coin per position, unbounded)"
+CLAIMS["C05"]["technique"] += "; fallback for rewritten parsers: exhaustive enumeration of all genomes up to length 6 (thorough 8) executed natively against a reference (bounded, no verifier)"
 for _p in ("C01", "C02", "C03"):
     CLAIMS[_p]["technique"] += "; bounded Kani pairing harnesses on a lean state as fallback / counterexample generator (DESIGN §12.3)"
     CLAIMS[_p]["note"] += " The Kani pairing harnesses (kani/src/c01.rs) are bounded (depths, representative operands for * / % pow) and listed under `bounded`, never counted as discharged."
